@@ -402,6 +402,47 @@ func corrProgDir(o corrOpts) *res.Summary {
 	return sum
 }
 
+// checkExpectations: a corpus module may state, in a file EXPECT, the diagnostics the properties demand of it
+// (file:line:code), independently of the model. A demanded diagnostic the real analyzers do not produce is a
+// disagreement with the property; when the line names an entry of KNOWN_FINDINGS.json it is tagged
+// with it — the driver then prints the KNOWN-FINDING line instead of a violation, for exactly these inputs.
+func checkExpectations(sum *res.Summary, dir string, outs []progOutcome) {
+	b, err := os.ReadFile(filepath.Join(dir, "EXPECT"))
+	if err != nil {
+		return
+	}
+	got := map[string]bool{}
+	for _, o := range outs {
+		for _, k := range o.impl {
+			loc := o.implLoc[k] // file:line:col
+			if i := strings.LastIndexByte(loc, ':'); i > 0 {
+				got[loc[:i]+":"+k[strings.IndexByte(k, ':')+1:]] = true
+			}
+		}
+	}
+	for _, line := range strings.Split(string(b), "\n") {
+		line = strings.TrimSpace(line)
+		if line == "" || strings.HasPrefix(line, "#") {
+			continue
+		}
+		// "file:line:CODE" or "file:line:CODE <known finding id>": only the lines that name a finding are tagged with it
+		lineKnown := ""
+		if f := strings.Fields(line); len(f) == 2 {
+			line, lineKnown = f[0], f[1]
+		}
+		code := line[strings.LastIndexByte(line, ':')+1:]
+		if !focus.all && !focus.code(code) {
+			continue
+		}
+		sum.Evaluations++
+		sum.Count("expectation-" + code)
+		if !got[line] {
+			sum.Disagree(res.Disagreement{Kind: "impl-vs-spec", Known: lineKnown, Input: "corpus:" + filepath.Base(dir) + " " + line, Impl: "not reported", Model: "reported (EXPECT)",
+				Clause: "the property demands this diagnostic of the witness module (annotated method declared with an alias / parenthesised receiver)"})
+		}
+	}
+}
+
 // ---- generated programs
 
 type genSpec struct {
@@ -512,6 +553,7 @@ func corrProg(o corrOpts) *res.Summary {
 				continue
 			}
 			compareModule(sum, "corpus:"+filepath.Base(d), d, cfg, outs, srcLine(d))
+			checkExpectations(sum, d, outs)
 			sum.AddN("corpus-packages", len(outs))
 		}
 		os.RemoveAll(croot)
